@@ -1,5 +1,5 @@
 """helpers shared by the HexSys-based checks"""
-from ..engine import explore, unjson, HarnessError
+from ..engine import explore, unjson, replay_doc
 from ..hexsys import HexSys
 
 
@@ -9,6 +9,10 @@ def run_hex(rep, name, **kw):
         if k in kw:
             explore_kw[k] = kw.pop(k)
     sysm = HexSys(seed=rep.seed, **kw)
+    if "state_cap" not in explore_kw:
+        # on a correct implementation states correspond to mappings: (|values|+1)^|keys|.  A leaking pruning implementation
+        # has unboundedly many exact states; twice the expected number is a sure sign and stops the search (reported as a cap).
+        explore_kw["state_cap"] = 2 * (len(sysm.vals) + 1) ** len(sysm.keys) + 50
     res = explore(sysm, **explore_kw)
     rep.add_bfs(name, res, sysm)
     return sysm, res
@@ -17,28 +21,7 @@ def run_hex(rep, name, **kw):
 def replay_hex(doc):
     """re-run a recorded history through the system's step function; True if the same check fails again"""
     kw = dict(doc["system"]["kwargs"])
-    kw["values"] = tuple(kw["values"])
-    kw["props"] = tuple(kw["props"])
-    kw["forms"] = tuple(kw["forms"])
-    kw["exits"] = tuple(kw["exits"])
+    for k in ("values", "props", "forms", "exits"):
+        kw[k] = tuple(kw[k])
     kw["extra_batches"] = unjson(kw.get("extra_batches") or [])
-    outcomes = []
-    for _ in range(2):
-        sysm = HexSys(**kw)
-        hist = [unjson(e) for e in doc["history"]]
-        snap, model = sysm.initial()[hist[0][1]]
-        found = []
-        for ev in hist[1:]:
-            found += [v["check"] for v in sysm.state_check(snap, model)]
-            st = sysm.step(snap, model, ev)
-            found += [v["check"] for v in st.viols]
-            if st.snap is None:
-                break
-            snap, model = st.snap, st.model
-        else:
-            found += [v["check"] for v in sysm.state_check(snap, model)]
-        outcomes.append(found)
-    if outcomes[0] != outcomes[1]:
-        raise HarnessError("replay is not deterministic")
-    print("replayed history; failing checks:", outcomes[0])
-    return doc["check"] in outcomes[0]
+    return replay_doc(lambda: HexSys(**kw), doc)
